@@ -108,12 +108,12 @@ func run(c *lib.Ctx) error {
 		sel := os.Getenv("VERIF_C06_PHASES")
 		return sel == "" || strings.Contains(","+sel+",", ","+p+",")
 	}
-	// two lanes side by side (about 4 cores each): model + generation | sweep + histories
+	// the phases run one after the other (at most 4 TLC processes at a time)
 	type phase struct {
 		name string
 		f    func(*lib.Ctx, string) error
 	}
-	lanes := [][]phase{{{"runs", modelRuns}, {"gen", genReplay}}, {{"sweep", sweep}, {"hist", histories}}}
+	lanes := [][]phase{{{"runs", modelRuns}, {"gen", genReplay}, {"sweep", sweep}, {"hist", histories}}}
 	errs := make([]error, len(lanes))
 	lib.Parallel(len(lanes), len(lanes), func(i int) {
 		for _, ph := range lanes[i] {
@@ -165,7 +165,7 @@ func genReplay(c *lib.Ctx, dir string) error {
 	var mu sync.Mutex
 	var firstErr error
 	total := 0
-	lib.Parallel(len(cfgs), 3, func(ci int) {
+	lib.Parallel(len(cfgs), 2, func(ci int) {
 		b := cfgs[ci]
 		r, err := c.TLC(fmt.Sprintf("MCPVector(bases=%v)", b.Bases), lib.TLCRun{Dir: dir, Module: "MCPVector", Workers: 2, Timeout: 14 * time.Minute, HeapGB: 6,
 			Files: map[string][]byte{"MCPVector.cfg": b.cfg()}})
